@@ -6,6 +6,7 @@ import (
 	"context"
 	"errors"
 	"strconv"
+	"time"
 
 	"github.com/google/go-containerregistry/pkg/crane"
 	"k8s.io/apimachinery/pkg/types"
@@ -17,17 +18,41 @@ import (
 
 var errPull = errors.New("registry unavailable")
 
-// VerifC20Pull: concurrent Pull calls under every interleaving at lock/channel granularity.
+// VerifC20Pull: concurrent Pull calls under every interleaving at lock/channel granularity. Caller 0 asks again as
+// soon as it got its first response (a request arriving right after a broadcast). Natively the schedule cannot be
+// forced; the replay widens the race windows instead (large payload, additional callers) and repeats the scenario.
 func VerifC20Pull() {
 	n := verifrt.Bound("callers", 2)
 	images := make([]string, n)
-	callers := map[string]int{}
 	for k := 0; k < n; k++ {
 		images[k] = []string{"img-a", "img-b"}[verifrt.IntRange("caller"+strconv.Itoa(k)+".image", 0, 1)]
-		callers[images[k]]++
 	}
 	fails := verifrt.Bool("pull.fails")
+	again := verifrt.Bool("caller0.asksAgain")
+	payload, extra := 1, 0
+	if !verifrt.Symbolic() {
+		payload, extra = 4<<20, 6
+	}
 	for iter := 0; iter < verifrt.Repeat(); iter++ {
+		total := n + extra
+		img := func(k int) string {
+			if k < n {
+				return images[k]
+			}
+			return images[0]
+		}
+		requests := map[string]int{}
+		rounds := make([]int, total)
+		for k := 0; k < total; k++ {
+			rounds[k] = 1
+			if k == 0 && again {
+				rounds[k] = 2
+			}
+			if k >= n {
+				rounds[k] = 4 // native noise callers: several requests at random moments
+			}
+			requests[img(k)] += rounds[k]
+		}
 		inFlight := map[string]int{}
 		pulls := map[string]int{}
 		overlap := false
@@ -47,37 +72,57 @@ func VerifC20Pull() {
 			if fails {
 				return nil, errPull
 			}
-			return &packagetypes.RawPackage{Files: packagetypes.Files{"manifest.yaml": []byte("x")}}, nil
+			return &packagetypes.RawPackage{Files: packagetypes.Files{"manifest.yaml": make([]byte, payload)}}, nil
 		}
-		results := make([]*packagetypes.RawPackage, n)
-		errs := make([]error, n)
-		returned := make([]int, n)
-		done := make(chan int, n)
-		for k := 0; k < n; k++ {
+		results := make([]*packagetypes.RawPackage, total)
+		errs := make([]error, total)
+		returned := make([]int, total)
+		done := make(chan int, total)
+		for k := 0; k < total; k++ {
 			go func(k int) {
-				pkg, err := rm.Pull(context.Background(), images[k])
-				verifrt.Lock()
-				results[k], errs[k] = pkg, err
-				returned[k]++
-				verifrt.Unlock()
+				for r := 0; r < rounds[k]; r++ {
+					if k >= n {
+						verifrt.Pause()
+						verifrt.Pause()
+					}
+					pkg, err := rm.Pull(context.Background(), img(k))
+					verifrt.Lock()
+					results[k], errs[k] = pkg, err
+					returned[k]++
+					verifrt.Unlock()
+				}
 				done <- k
 			}(k)
 		}
-		for k := 0; k < n; k++ {
-			<-done
+		if !verifrt.Symbolic() {
+			// natively a lost response shows as a caller that never returns: do not wait forever
+			timeout := time.After(3 * time.Second)
+			for k := 0; k < total; k++ {
+				select {
+				case <-done:
+				case <-timeout:
+					verifrt.Assert(false, "C20/every-caller-gets-exactly-one-response")
+					verifrt.Assert(false, "C20/no-stale-in-flight-entry")
+					return
+				}
+			}
+		} else {
+			for k := 0; k < total; k++ {
+				<-done
+			}
 		}
 		verifrt.Lock()
 		verifrt.Assert(!overlap, "C20/at-most-one-pull-per-image-in-flight")
-		for k := 0; k < n; k++ {
-			verifrt.Assert(returned[k] == 1, "C20/every-caller-gets-exactly-one-response")
+		for k := 0; k < total; k++ {
+			verifrt.Assert(returned[k] == rounds[k], "C20/every-caller-gets-exactly-one-response")
 			if fails {
 				verifrt.Assert(results[k] == nil && errs[k] != nil, "C20/error-delivered-to-every-caller")
 			} else {
 				verifrt.Assert(results[k] != nil && errs[k] == nil, "C20/package-delivered-to-every-caller")
 			}
 		}
-		for a := 0; a < n; a++ {
-			for b := a + 1; b < n; b++ {
+		for a := 0; a < total; a++ {
+			for b := a + 1; b < total; b++ {
 				if results[a] != nil && results[b] != nil {
 					private := results[a] != results[b] && !verifrt.SameObject(results[a].Files, results[b].Files) &&
 						!verifrt.SameObject(results[a].Files["manifest.yaml"], results[b].Files["manifest.yaml"])
@@ -85,8 +130,8 @@ func VerifC20Pull() {
 				}
 			}
 		}
-		for img, c := range callers {
-			verifrt.Assert(pulls[img] >= 1 && pulls[img] <= c, "C20/pulls-are-deduplicated")
+		for im, c := range requests {
+			verifrt.Assert(pulls[im] >= 1 && pulls[im] <= c, "C20/pulls-are-deduplicated")
 		}
 		verifrt.Unlock()
 		rm.inFlightLock.Lock()
